@@ -20,7 +20,7 @@ import numpy as np
 
 from acnportal import acnsim
 
-from mc.core import Acc
+from mc.core import Acc, guard
 from mc import simspace as S
 
 ID = "C18"
@@ -163,6 +163,7 @@ def execute(item, only=None):
                 try:
                     got = acnsim.constraint_currents(sim, return_magnitudes=flag, constraint_ids=q)
                 except Exception as exc:
+                    guard(exc)
                     rep("constraint_currents:exception", "constraint_currents(constraint_ids=%s) raised %r" % (q, exc), repr(exc), None)
                     continue
                 want_keys = set(names if q is None else q)
@@ -227,6 +228,7 @@ def execute(item, only=None):
             try:
                 got = acnsim.current_unbalance(sim, list(trip))
             except Exception as exc:
+                guard(exc)
                 rep("current_unbalance:exception", "current_unbalance(%s) raised %r" % (trip, exc), repr(exc), None)
                 continue
             if len(got) != T:
